@@ -223,10 +223,14 @@ Qed.
 Lemma cs_var e C K alts : sound_rel C K -> step_goal e C K (SVar alts).
 Proof.
   intros IH r v Hc Hs Hv. unfold conf_struct in Hc. case_hyp Hc.
-  destruct (vnth alts i) as [[idx gs]|] eqn:En; [|discriminate]. cbn [wfs wfv to_item] in *.
-  destruct (vnth_facts alts i idx gs l0 En Hs Hv) as (E & Hgs & Hgv & Hidx). rewrite E. cbn [cddl_body forall2b].
-  apply andb_true_iff in Hc as [H0 Hl]. apply andb_true_iff. split.
-  - apply (IH (SUint (idx + 1)) r (VNat idx)); [exact H0|cbn [wfs]; lia|cbn [wfv]; lia].
+  match type of Hv with
+  | wfv _ (VVar ?i ?l) = true =>
+    destruct (vnth alts i) as [[idx gs]|] eqn:En; [|discriminate]; cbn [wfs wfv to_item] in *;
+    destruct (vnth_facts alts i idx gs l En Hs Hv) as (E & Hgs & Hgv & Hidx); rewrite E
+  end.
+  cbn [cddl_body forall2b]. apply andb_true_iff in Hc as [H0 Hl]. apply andb_true_iff. split.
+  - match type of H0 with C _ ?r0 _ = true =>
+      apply (IH (SUint (idx + 1)) r0 (VNat idx)); [exact H0|cbn [wfs]; lia|cbn [wfv]; lia] end.
   - eapply conf_sl_sound; eassumption.
 Qed.
 
@@ -259,3 +263,110 @@ Proof.
     + intros [x y] Hx. cbn [fst]. apply to_item_enc. pose proof (forallb_In _ _ _ Hall Hx) as W. cbn [fst snd] in W. split_ands. assumption.
     + eapply map_keys_nodupb. eassumption.
 Qed.
+
+Lemma cs_nullable e C K s : sound_rel C K -> rec_le K (cddl_body e K) -> step_goal e C K (SNullable s).
+Proof.
+  intros IH Hm r v Hc Hs Hv. cbn [wfs] in Hs. split_ands.
+  destruct v; try (unfold conf_struct in Hc; case_hyp Hc; fail);
+    try (assert (Hc' : C s r _ = true) by (unfold conf_struct in Hc; case_hyp Hc; exact Hc);
+         cbn [to_item wfv] in *; apply Hm; apply IH; assumption).
+  (* VNull *) unfold conf_struct in Hc. case_hyp Hc. reflexivity.
+Qed.
+
+Lemma cs_inbytes e C K s : sound_rel C K -> step_goal e C K (SInBytes s).
+Proof.
+  intros IH r v Hc Hs Hv. unfold conf_struct in Hc. case_hyp Hc. cbn [to_item cddl_body wfs wfv] in *. split_ands.
+  rewrite parse_enc by assumption.
+  destruct (enc_canonical s v ltac:(assumption) ltac:(assumption)) as (A & _). rewrite A. cbn [andb].
+  apply IH; assumption.
+Qed.
+
+Lemma cs_tagchoice e C K alts : sound_rel C K -> step_goal e C K (STagChoice alts).
+Proof.
+  intros IH r v Hc Hs Hv. unfold conf_struct in Hc. case_hyp Hc.
+  match type of Hv with
+  | wfv _ (VAlt ?i ?v') = true =>
+    destruct (cnth alts i) as [[d s']|] eqn:En; [|discriminate]; cbn [wfs wfv to_item] in *;
+    destruct (cnth_facts alts true i d s' v' En Hs Hv) as (E & Hs' & Hv'); rewrite E
+  end.
+  cbn [cddl_body]. apply andb_true_iff in Hc as [H0 H1]. apply andb_true_iff. split; [lia|apply IH; assumption].
+Qed.
+
+Lemma cs_arrany e C K s : sound_rel C K -> step_goal e C K (SArrAny s).
+Proof.
+  intros IH r v Hc Hs Hv. cbn [wfs] in Hs. split_ands.
+  destruct v as [| | | | | | | | | |i v]; try discriminate Hv.
+  destruct i as [|[|i]]; destruct v as [| | | | | |l| | | |]; cbn [wfv] in Hv; try discriminate Hv;
+    unfold conf_struct in Hc; case_hyp Hc; cbn [to_item cddl_body]; split_ands;
+    rewrite is_nil_map, len_map; unfold len in *; rw_hyps; cbn [orb andb];
+    eapply forallb_conf_sound; eassumption.
+Qed.
+
+Lemma cs_tag e C K t s0 : sound_rel C K -> step_goal e C K (STag t s0).
+Proof.
+  intros IH r v Hc Hs Hv. cbn [wfs] in Hs. apply andb_true_iff in Hs as [Ht Hs0]. cbn [wfv] in Hv.
+  destruct r; try (unfold conf_struct in Hc; case_hyp Hc; fail).
+  - (* RTag *) assert (Hc' : (t =? t0) && C s0 r v = true) by (unfold conf_struct in Hc; case_hyp Hc; exact Hc).
+    apply andb_true_iff in Hc' as [E1 E2]. cbn [to_item cddl_body].
+    replace (t0 =? t) with true by lia. cbn [andb]. exact (IH s0 r v E2 Hs0 Hv).
+  - (* RSetAny *) unfold conf_struct in Hc. case_hyp Hc.
+    + (* definite *) cbn [wfs wfv to_item cddl_body] in *. split_ands.
+      rewrite is_nil_map, len_map. unfold len in *. rw_hyps. cbn [orb andb].
+      replace (t =? 258) with true by lia. cbn [andb].
+      match goal with Hf : forallb (C _ _) _ = true |- _ => rewrite (forallb_conf_sound C K IH _ _ _ Hf) by assumption end.
+      cbn [andb]. match goal with Hn : nodupb _ = true |- _ => apply (nodup_items _ _ _ (fun y Hy => to_item_enc _ y (forallb_In _ _ _ ltac:(eassumption) Hy)) Hn) end.
+    + (* indefinite *) cbn [wfs] in Hs0. match type of Hv with wfv _ (VAlt (S ?n) _) = true => destruct n; [|discriminate Hv] end.
+      cbn [wfv to_item cddl_body] in *. split_ands.
+      rewrite is_nil_map, len_map. unfold len in *. rw_hyps. cbn [orb andb].
+      replace (t =? 258) with true by lia. cbn [andb].
+      match goal with Hf : forallb (C _ _) _ = true |- _ => rewrite (forallb_conf_sound C K IH _ _ _ Hf) by assumption end.
+      cbn [andb]. match goal with Hn : nodupb _ = true |- _ => apply (nodup_items _ _ _ (fun y Hy => to_item_enc _ y (forallb_In _ _ _ ltac:(eassumption) Hy)) Hn) end.
+  - (* RRatio *) unfold conf_struct in Hc. case_hyp Hc. cbn [to_item to_items_sl cddl_body]. exact Hc.
+Qed.
+
+(* ---------- assembly ---------- *)
+Lemma conf_struct_sound e C K : sound_rel C K -> rec_le K (cddl_body e K) -> forall s, step_goal e C K s.
+Proof.
+  intros IH Hm s. destruct s.
+  - apply cs_uint. - apply cs_nint. - apply cs_bytes. - apply cs_text. - apply cs_bool.
+  - apply cs_arr; assumption. - apply cs_map; assumption. - apply cs_var; assumption.
+  - apply cs_arrof; assumption. - apply cs_setof; assumption. - apply cs_mapof; assumption.
+  - apply cs_nullable; assumption. - apply cs_tag; assumption. - apply cs_inbytes; assumption.
+  - (* SChoice: transparent, never structural *) intros r v Hc _ _. unfold conf_struct in Hc. case_hyp Hc; discriminate Hc.
+  - apply cs_tagchoice; assumption. - apply cs_arrany; assumption. - apply cs_bbytes.
+  - (* SNamed *) intros r v Hc _ _. unfold conf_struct in Hc. case_hyp Hc; discriminate Hc.
+Qed.
+
+Lemma conf_body_sound e C K : sound_rel C K -> rec_le K (cddl_body e K) ->
+  forall s r v, conf_body e C s r v = true -> wfs s = true -> wfv s v = true -> cddl_body e K r (to_item s v) = true.
+Proof.
+  intros IH Hm s r v Hc Hs Hv.
+  assert (Gen : forall s0, (match r with
+                            | RRef id => match lookup e id with Some r' => C s0 r' v | None => false end
+                            | RChoice ralts => existsb (fun a => C s0 a v) ralts
+                            | _ => conf_struct C s0 r v
+                            end) = true -> wfs s0 = true -> wfv s0 v = true -> cddl_body e K r (to_item s0 v) = true).
+  { intros s0 H Hs0 Hv0. destruct r; try (apply (conf_struct_sound e C K IH Hm s0); assumption).
+    - (* RChoice *) cbn [cddl_body]. eapply existsb_mono; [|exact H]. intros a Ha. apply IH; assumption.
+    - (* RRef *) cbn [cddl_body]. destruct (lookup e id) as [r'|]; [|discriminate]. apply IH; assumption. }
+  destruct s; try (apply Gen; assumption).
+  - (* SChoice *) cbn [conf_body] in Hc. destruct v as [| | | | | | | | | |i v']; try discriminate.
+    destruct (cnth alts i) as [[d s']|] eqn:En; [|discriminate]. cbn [wfs wfv to_item] in *.
+    destruct (cnth_facts alts false i d s' v' En Hs Hv) as (E & Hs' & Hv'). rewrite E.
+    apply Hm. apply IH; assumption.
+  - (* SNamed *) cbn [conf_body wfs wfv to_item] in *. apply Hm. apply IH; assumption.
+Qed.
+
+Theorem conforms_sound e : forall fuel s r v,
+  conforms e fuel s r v = true -> wfs s = true -> wfv s v = true -> cddl_ok e fuel r (to_item s v) = true.
+Proof.
+  induction fuel as [|f IH]; intros s r v Hc Hs Hv; [discriminate|].
+  change (cddl_ok e (S f) r (to_item s v)) with (cddl_body e (cddl_ok e f) r (to_item s v)).
+  exact (conf_body_sound e (conforms e f) (cddl_ok e f) IH (cddl_ok_S e f) s r v Hc Hs Hv).
+Qed.
+
+(* the full-strength statement in value-dependent form: every schema-valid typed value that satisfies the Conway
+   constraints is emitted as bytes the independent validator accepts *)
+Theorem conforms_bytes_sound e fuel s r v :
+  wfs s = true -> wfv s v = true -> conforms e fuel s r v = true -> cddl_ok_bytes_fuel e fuel r (enc s v) = true.
+Proof. intros Hs Hv Hc. rewrite bytes_of_tree by assumption. apply conforms_sound; assumption. Qed.
